@@ -150,6 +150,22 @@ func HLayoutTrivia() {
 		}
 	}
 	variant := doc[:site.pos] + string(t) + doc[site.pos:]
+	// composition with a whole-document rewrite of the line endings (conv 1: CRLF, 2: CR),
+	// applied to the skeleton and to the variant alike
+	convMode := vParam("conv", 0)
+	conv := func(s string) string {
+		if convMode == 0 {
+			return s
+		}
+		s = strings.ReplaceAll(s, "\r\n", "\n")
+		if convMode == 1 {
+			return strings.ReplaceAll(s, "\n", "\r\n")
+		}
+		return strings.ReplaceAll(s, "\n", "\r")
+	}
+	k = len(conv(doc[:site.pos]+string(t))) - len(conv(doc[:site.pos]))
+	sitePos := len(conv(doc[:site.pos]))
+	doc, variant = conv(doc), conv(variant)
 	cA, jeA := vBuildProject(doc, vLayoutFiles)
 	cB, jeB := vBuildProject(variant, vLayoutFiles)
 	if vParam("debug", 0) == 1 {
@@ -164,7 +180,7 @@ func HLayoutTrivia() {
 		vAssert(vMsgClass(jeA) == vMsgClass(jeB), "c08-trivia-changes-error-class")
 		if strings.HasSuffix(jeA.File.Name(), "/root.jst") {
 			shift := 0
-			if int(jeA.Index) >= site.pos {
+			if int(jeA.Index) >= sitePos {
 				shift = k
 			}
 			vAssert(int(jeB.Index) == int(jeA.Index)+shift, "c08-error-does-not-move-with-the-text")
